@@ -271,6 +271,26 @@ theorem lu_solve_trans_backward_error {u : F} (hu0 : 0 ≤ u) {n qL qU K : Nat} 
   have := lu_backward_error hu0 hLU (K := n - 1 + qL) (by omega) h3 j hj i hi
   simpa only [mul_comm] using this
 
+/-- **two triangular solves with given factors** (`[sdcz]gstrs` checked against `A := L U` formed
+exactly from the stored factors, C14): `|b - (P Q) x̂| ≤ γ_K |P||Q||x̂|` for `K ≥ 2n - 2 + qa + qb`,
+`P` lower and `Q` upper triangular (NOTRANS: `P = L̂`, `Q = Û`; TRANS: `P = Ûᵀ`, `Q = L̂ᵀ`). -/
+theorem two_solves_bound {u : F} (hu0 : 0 ≤ u) {n qa qb K : Nat} {P Q : Nat → Nat → F}
+    {b y x : Nat → F} (hP : ∀ i t, i < t → P i t = 0) (hQ : ∀ i t, t < i → Q i t = 0)
+    (hy : LowerSolved u n qa P b y) (hx : UpperSolved u n qb Q y x)
+    (hK : 2 * n + qa + qb ≤ K + 2) (hKu : (K : F) * u < 1) (i : Nat) (hi : i < n) :
+    |b i - ∑ j ∈ range n, (∑ t ∈ range n, P i t * Q t j) * x j| ≤
+      gamma u K * ∑ j ∈ range n, (∑ t ∈ range n, |P i t| * |Q t j|) * |x j| := by
+  have hn : 1 ≤ n := by omega
+  have h1 : ((n - 1 + qa : Nat) : F) * u < 1 := mul_lt_one_of_le hu0 (by omega) hKu
+  have h2 : ((n - 1 + qb : Nat) : F) * u < 1 := mul_lt_one_of_le hu0 (by omega) hKu
+  refine solve_combine hu0 (M := fun i j => ∑ t ∈ range n, P i t * Q t j)
+    (ka := n - 1 + qa) (kb := n - 1 + qb) (kc := 0) ?_
+    (fun i hi => lower_solve_bound hu0 hP hy (by omega) h1 i hi)
+    (fun t ht => upper_solve_bound hu0 hQ hx (by omega) h2 t ht)
+    (by omega) hKu i hi
+  intro i _ j _
+  simp [gamma_zero]
+
 /-! ### column permutation of the unknowns, exact arithmetic as the instance `u = 0` -/
 
 /-- reindexing a full sum by a permutation of `range n` -/
